@@ -1022,7 +1022,7 @@ def model_cases(ctx, rng):
     ctx.model_check("MC_Tree", "MC_tree_quick.cfg" if quick else "MC_tree_thorough.cfg", name="tree-contraction",
                     require_actions=("Contract", "Return"), timeout=2400)
     selftest(ctx, "MC_C12", "MC_skipbond.cfg", "CapRespected", "last bond of a boundary line left uncompressed")
-    selftest(ctx, "MC_C12", "MC_alias.cfg", "EnvConsistent", "projector mode relabels stored environments in place (KF-C12-1), not excused")
+    selftest(ctx, "MC_C12", "MC_alias.cfg", "EnvConsistent", "environments stored as views: the projector mode relabels them in place (the code before the fix of KF-C12-1)")
     if not quick:
         selftest(ctx, "MC_C12", "MC_envshift.cfg", "EnvConsistent", "environment stored under the next key")
         selftest(ctx, "MC_C12", "MC_keeptag.cfg", "SelectUnique", "inner site tag kept between layers")
